@@ -7,6 +7,7 @@ Require Import SDS.Spec.Stream SDS.Spec.BitSeq SDS.Check.Common.
 Require Import SDS.Model.Writer SDS.Model.WriterFail.
 Require Export SDS.Model.Ser SDS.Check.SerCommon.
 Require Export SDS.Check.SerWM.   (* WMCore / WaveletMatrix: the CTruncW / CSinkW cases *)
+Require SDS.Check.SerSparse.
 Import ListNotations.
 Open Scope N_scope.
 
@@ -16,6 +17,9 @@ Inductive wcop := WB (b : bool) | WI (v w : N).
 Inductive case :=
 (* outcomes: run-length encoded outcome codes of T::load on the first k bytes, k = 0 .. size-1 *)
 | CTrunc (path : N) (dbg : bool) (t : ty) (r : recipe) (elems : list N) (outcomes : list (N * N))
+(* the same for one SparseVector (recipe: low width w the crate chose, universe len, multi = SparseBuilder::multiset,
+   the values): SparseVector::load on the first k bytes, k = 0 .. size-1 *)
+| CTruncS (w : N) (path : N) (dbg : bool) (len : N) (multi : bool) (vals : list N) (elems : list N) (outcomes : list (N * N))
 (* skip_option on the first k bytes of a serialized Option, k = 0 .. size-1 *)
 | CSkipTrunc (path : N) (dbg : bool) (elems : list N) (outcomes : list (N * N))
 (* serialize into a sink that accepts b bytes, b = 0 .. size-1. kind 0: the sink then fails with its own error;
@@ -125,6 +129,13 @@ Definition check (c : case) : N :=
                           (sampled LIMIT STRIDE total) 0 obs
         | None => false
         end in
+      let s_ok := (lenN obs =? total) && forallb code_is_err obs in
+      code m_ok s_ok
+  | CTruncS w path dbg len multi vals elems outcomes =>
+      let bytes := stream elems [] in
+      let obs := rle_expand outcomes in
+      let total := lenN bytes in
+      let m_ok := SerSparse.trunc_model (sp_of path) (mode_of dbg) w len multi vals bytes (sampled LIMIT STRIDE total) obs in
       let s_ok := (lenN obs =? total) && forallb code_is_err obs in
       code m_ok s_ok
   | CSkipTrunc path dbg elems outcomes =>
